@@ -61,6 +61,12 @@ func (w *World) funcOpts(op *Op) []tensor.FuncOpt {
 		opts = append(opts, tensor.WithReuse(w.rslot(op)))
 	case "incr":
 		opts = append(opts, tensor.WithIncr(w.rslot(op)))
+	case "reuse-incr":
+		inc := w.get(op.R2)
+		if inc == nil {
+			panic(skipOp{})
+		}
+		opts = append(opts, tensor.WithReuse(w.rslot(op)), tensor.WithIncr(inc))
 	case "same":
 		opts = append(opts, tensor.AsSameType())
 	case "same-unsafe":
@@ -706,6 +712,8 @@ func (w *World) dests(op *Op) []int {
 		}
 	case "reuse", "incr", "same-reuse":
 		d = append(d, op.R)
+	case "reuse-incr":
+		d = append(d, op.R, op.R2)
 	}
 	return d
 }
@@ -746,8 +754,11 @@ func (w *World) Exec(op *Op) (out Outcome) {
 				break
 			}
 		}
-		if ident < 0 && (op.Mode == "reuse" || op.Mode == "incr" || op.Mode == "same-reuse") && w.get(op.R) == d {
+		if ident < 0 && (op.Mode == "reuse" || op.Mode == "incr" || op.Mode == "same-reuse" || op.Mode == "reuse-incr") && w.get(op.R) == d {
 			ident = 100
+		}
+		if ident < 0 && op.Mode == "reuse-incr" && w.get(op.R2) == d {
+			ident = 101
 		}
 		h = fnvU64(h, uint64(ident+1))
 		h = fnvU64(h, snapOf(d).All())
